@@ -52,10 +52,12 @@ ASSUMPTIONS = [
 ]
 
 BASE = "/api/v3.0"
-IDS = ["id:a", "https://x/ä b", "a/b+c=d?", "s"]
+# (round 6) two identifiers that differ from others only by white space at an end (legal: an Identifier is any non-empty string over the
+# AASd-130 repertoire); they are their own resources
+IDS = ["id:a", "https://x/ä b", "a/b+c=d?", "s", "s ", "\tid:a"]
 IDSHORTS = ["a", "b", "c1"]
 QTYPES = ["qa", "q/b"]
-PREFERRED = {"id:a": "sm", "https://x/ä b": "sm", "a/b+c=d?": "shell", "s": "cd"}
+PREFERRED = {"id:a": "sm", "https://x/ä b": "sm", "a/b+c=d?": "shell", "s": "cd", "s ": "sm", "\tid:a": "cd"}
 # oracle only (the handler model has no attachments and no referredSemanticId): few names / contents, so that they collide
 FILE_NAMES = ["/f/a.txt", "/b"]
 FILE_BYTES = [b"one", b"two\n", b"\x00\xff3"]
@@ -1766,6 +1768,23 @@ def oracle(ctx: C.Ctx, cov: C.Coverage) -> List[C.Failing]:
             sigs.add(f.sig)
             f.case["ops"] = C.ddmin(f.case["ops"], lambda o, f=f, fb=fb, hi=hi: (lambda g: g is not None and g.sig == f.sig)(run_semantic(o, fb, (ctx.seed, hi))), 60)
             out.append(f)
+    # (round 6) directed: every kind of attachment operation on a Blob that holds content and on a File, at the top and inside a
+    # collection, in BOTH store modes (what a handler changes without committing is lost on a file-backed store only)
+    b64c = base64.b64encode(FILE_BYTES[0]).decode("ascii")
+    for fb in (False, True):
+        for nested in (False, True):
+            els = [mk_att("blob", "a", 1, ATT_CTYPES[0], b64c), mk_att("file", "b", 1, ATT_CTYPES[0], None)]
+            root = [mk_elem("coll", "c1", 1, [], els)] if nested else els
+            pre = ["c1"] if nested else []
+            sm_ = mk_sm(IDS[0], None, 1, [], root)
+            ops = [["create", "sm", sm_], ["att-del", IDS[0], pre + ["a"]], ["att-del", IDS[0], pre + ["a"]],
+                   ["att-put", IDS[0], pre + ["b"], FILE_NAMES[0], b64c, ATT_CTYPES[0]], ["att-del", IDS[0], pre + ["b"]],
+                   ["att-put", IDS[0], pre + ["b"], FILE_NAMES[1], b64c, ATT_CTYPES[0]]]
+            f = run_semantic(ops, fb, (ctx.seed, "att", fb, nested))
+            cov.hit("oracle-histories")
+            if f is not None and f.sig not in sigs:
+                sigs.add(f.sig)
+                out.append(f)
     # documents over the whole metamodel (round 4)
     cov.extra["oracle_documents"] = ("histories of create / replace / delete of submodels and of nested elements written as plain JSON documents over all 14 element "
                                      "classes (typed values of Property, Range, Qualifier, Extension drawn from families of Python-equal forms; lists of 10 element "
@@ -2504,16 +2523,23 @@ def search(ctx: C.Ctx, disagreements, broken) -> List[C.Failing]:
     from props import c11
     for d in disagreements:
         if isinstance(d.case, dict) and "reqs" in d.case:
-            f = c11.check_history(d.case["reqs"], d.case.get("mode") == "file")
+            f = c11.check_history(d.case["reqs"], d.case.get("mode", "dict"))
             if f:
                 out.append(f)
     if out:
         return out
+    # the sister property's oracle first (it judges every request of the same histories for purity of rejected requests - a
+    # reference repository does not change when it rejects), then the own one with the budget of the thorough tier; recorded
+    # findings of either property are not what broke
+    own_known = {k["sig"] for k in C.load_known("C10") if k.get("status", "open") == "open"}
+    sis_known = {k["sig"] for k in C.load_known("C11") if k.get("status", "open") == "open"}
+    out = [f for f in c11.oracle(ctx, C.Coverage()) if f.sig not in sis_known]
+    if out:
+        return out
     big = C.Ctx(ctx.prop, "thorough", ctx.seed + 1, random.Random(), ctx.t0, ctx.jobs)
-    out = oracle(big, C.Coverage())
+    out = [f for f in oracle(big, C.Coverage()) if f.sig not in own_known]
     if not out:
-        known = {k["sig"] for k in C.load_known("C11")}
-        out = [f for f in c11.oracle(big, C.Coverage()) if f.sig not in known]
+        out = [f for f in c11.oracle(big, C.Coverage()) if f.sig not in sis_known]
     return out
 
 
@@ -2523,7 +2549,7 @@ def replay(case) -> Optional[C.Failing]:
     if case.get("kind") == "doc":
         return run_docs(case["ops"], case.get("mode") == "file", case.get("seed", 0))
     from props import c11
-    return c11.check_history(case["reqs"], case.get("mode") == "file")
+    return c11.check_history(case["reqs"], case.get("mode", "dict"))
 
 
 def translate(ctx) -> List[str]:
